@@ -371,14 +371,15 @@ class AuditHeader(Harness):
         for ln in lines:
             flat.extend(ln.split('\n'))
         i0 = [i for i, ln in enumerate(flat) if OL._starts(ln, '(gen) header: ')]
-        hdr = None
-        if len(i0) == 1:
-            hdr = [flat[i0[0]][len('(gen) header: '):]] + flat[i0[0] + 1:i0[0] + self.nlines]
+        # the header text: the lines carrying the '(gen) header: ' prefix, in order (every line of the peer's text carries it: no line of the peer's choosing
+        # stands alone in the report)
+        hdr = [flat[i][len('(gen) header: '):] for i in i0]
+        alone = [ln for ln in flat if any(bool(ln == 'notice ' + h) for h in inp['hdr'])]
         # a second peer, audited afterwards in the same process, sends no header text at all
         ban2 = b'SSH-2.0-' + inp['sw'].encode('utf-8') + b'\r\n'
         r2 = AE.run_audit(M, [AE.Conn([ban2, pk])] + [AE.Conn([ban2, pk], 'close') for _ in range(14)])
         leak = isinstance(r2['ret'], Exc) or any(OL._starts(ln, '(gen) header: ') for ln in r2['lines'])
-        return {'hdr': hdr, 'nhdr': len(i0), 'banner': [ln for ln in flat if OL._starts(ln, '(gen) banner: ')], 'nprobe': len(r['net'].made) - 1, 'leak': leak}
+        return {'hdr': hdr, 'nhdr': len(i0), 'alone': len(alone), 'banner': [ln for ln in flat if OL._starts(ln, '(gen) banner: ')], 'nprobe': len(r['net'].made) - 1, 'leak': leak}
 
     def check(self, inp, obs):
         if 'exc' in obs:
@@ -388,10 +389,11 @@ class AuditHeader(Harness):
         if self.nlines == 0:
             yield 'no-header-line-without-header-text', obs['nhdr'] == 0
         else:
-            ok = obs['nhdr'] == 1 and obs['hdr'] is not None and len(obs['hdr']) == self.nlines
+            ok = obs['nhdr'] == self.nlines and obs['hdr'] is not None and len(obs['hdr']) == self.nlines
             if ok:
                 ok = s_and(*[g == 'notice ' + h for g, h in zip(obs['hdr'], inp['hdr'])])
             yield 'header-text-as-sent-after-the-probes', ok
+            yield 'no-header-line-stands-alone-in-the-report', obs['alone'] == 0
         yield 'banner-as-sent-after-the-probes', len(obs['banner']) == 1 and bool(obs['banner'][0] == '(gen) banner: SSH-2.0-' + inp['sw'])
         yield 'header-text-does-not-appear-in-the-next-peers-report', not obs['leak']
 
